@@ -317,9 +317,11 @@ func oracle(res *runResult, cs, maxMsg int) *verdict {
 			}
 		case "cacput", "cacget":
 			v = oracleACClient(st)
-		case "bigget", "bigfront", "stallget":
+		case "bigget", "bigfront", "stallget", "bigput":
 			switch {
 			case st.reply == "ok":
+			case strings.HasPrefix(st.reply, "put-result"):
+				v = &verdict{whatBigPut, st.reply}
 			case st.reply == "hang close recv" || st.reply == "hang close decoder":
 				// the decoder is closed before the pipe it reads from / Recv is called by Close
 				// concurrently with the goroutine feeding the decoder
